@@ -66,7 +66,8 @@ class SRv6LANEndXSID(TLV):
             raise Exception('Unknown bgpls_pro_id {0}'.format(bgpls_pro_id))
 
         sid = str(
-            netaddr.IPAddress(int(binascii.b2a_hex(data[n_id_unpack_end_position:n_id_unpack_end_position + 16]), 16))
+            netaddr.IPAddress(
+                int(binascii.b2a_hex(data[n_id_unpack_end_position:n_id_unpack_end_position + 16]), 16), 6)
         )
         sub_tlvs_bin_data = data[n_id_unpack_end_position + 16:]
 
